@@ -374,7 +374,8 @@ impl<'a> Ctx<'a> {
                     sb.set_as_resources(AsResources::blocks(ab2.finalize()));
                     let so = sb.finalize(Oid(Bytes::copy_from_slice(rpki::oid::CT_ASPA.0)), content, &self.signer, &ca.key)
                         .map_err(|e| format!("{}: signing: {}", what, e))?;
-                    so.encode_ref().to_captured(Mode::Der).into_bytes()
+                    let b = so.encode_ref().to_captured(Mode::Der).into_bytes();
+                    b
                 } else {
                     let (sb, _, _) = self.sigobj_builder(ca, &obj.name, ee, faults)?;
                     ab.finalize(sb, &self.signer, &ca.key).map_err(|e| format!("{}: signing: {}", what, e))?
@@ -402,7 +403,8 @@ impl<'a> Ctx<'a> {
                 let so = sb.finalize(Oid(Bytes::copy_from_slice(&CT_GBR)), vcard, &self.signer, &ca.key)
                     .map_err(|e| format!("{}: signing: {}", what, e))?;
                 let t = self.ee_truth(ca_idx, ee, nb, na, faults, claimed);
-                (so.encode_ref().to_captured(Mode::Der).into_bytes(),
+                let b = so.encode_ref().to_captured(Mode::Der).into_bytes();
+                (b,
                  ObjTruth::Gbr { decodes: !garbage, content_sig_ok: !faults.contains(&Fault::BadContentSignature), ee: t })
             }
             ObjKind::Other { content } => {
